@@ -74,6 +74,7 @@ def run(tier, replay=None):
     for s in scns: fam[s["meta"]["family"]] = fam.get(s["meta"]["family"], 0) + 1
     cov = {"states": len(scns), "transitions": summ.get("calls", 0), "traces_validated_against_impl": len(scns) + len(extra), "evaluations": len(scns), "distinct_nontrivial": fp,
            "flush_points_judged": fp, "completed_full_flush_points": full, "families": fam,
+           "state_machine_conformance": {"model": "spec/DeflateStreamOps.tla (tabulated by spec/gen/GenDeflateStream.tla)", "calls_not_in_model": igz.drift_count(res)},
            "rule": "flush requests at every input position (small inputs) / sampled positions, several per stream with mode changes, first-call avail_out swept over every value so the header/body/marker stays pending and the next call supplies new input with another flush, "
                    "1-5 byte output chunks splitting the 00 00 FF FF marker; at every call that returns with flush in {SYNC,FULL}, all input consumed and space left TLC decodes the output so far (incrementally): it must end on a byte boundary after an empty stored block and decode to everything fed; "
                    "after each completed FULL flush no later block may reference data before the flush point (per-block minimum reference from the decoder) and the first suffix is decoded in isolation; one-shot raw FULL_FLUSH output + a terminated output appended must be one valid stream. distinct_nontrivial = flush points judged",
